@@ -288,9 +288,8 @@ Proof.
   simpl. destruct (frames s) as [|fr rest]; intros E; inversion E; subst; clear E; simpl; [contradiction|].
   intros H. apply in_app_or in H as [H|H].
   - unfold drops in H. apply in_map_iff in H as [y [Y _]]. subst. exact I.
-  - destruct f; simpl in H; try contradiction; destruct (f_die fr); simpl in H;
+  - destruct f; simpl in H; try contradiction; destruct (f_die fr); try destruct ready; simpl in H;
       repeat (destruct H as [H|H]); subst; simpl; auto; try contradiction.
-    destruct ready; simpl in H; repeat (destruct H as [H|H]); subst; simpl; auto; contradiction.
 Qed.
 
 Lemma I15_endbody u f k0 s pre s' :
